@@ -72,10 +72,15 @@ func bePut(n int, v uint64) []byte {
 // pickField: a class first (so that small fields are hit as often as large ones), then one of its fields.
 // The last transaction is validated by store.Open itself, after which nothing else can be observed: 5 out of 6
 // picks avoid it when the class has fields elsewhere.
-// uni draws an index in [0,n) without rapid's bias towards small values (the draw is scrambled; shrinking still
-// works on the underlying integer).
+// uni draws an index in [0,n) without rapid's bias towards small and special values (a single integer draw
+// returns 0 about one time in five): six byte draws are hashed. Shrinking still works on the underlying bytes.
+var uniGen = rapid.SliceOfN(rapid.Byte(), 6, 6)
+
 func uni(rt *rapid.T, n int, label string) int {
-	x := uint64(rapid.Uint32().Draw(rt, label))
+	var x uint64 = 14695981039346656037
+	for _, b := range uniGen.Draw(rt, label) {
+		x = (x ^ uint64(b)) * 1099511628211
+	}
 	x += 0x9E3779B97F4A7C15
 	x = (x ^ (x >> 30)) * 0xBF58476D1CE4E5B9
 	x = (x ^ (x >> 27)) * 0x94D049BB133111EB
